@@ -647,9 +647,29 @@ static std::string showSyms(const std::vector<int>& path)
     return s;
 }
 
-static void dfsSym(W& w, const Sys& s, std::vector<int>& path, int target, char oracle)
+// a small sharp sub-alphabet for a DEEPER unmerged tree (state the pending-table dump does not show, e.g. a counter
+// added to the decoder, is invisible to the merged BFS): endpoints A, B (same device) and D x {U, F, I, L, payload-type 0, [U][L]}
+static std::vector<int> sharpAlphabet()
 {
+    std::vector<int> a;
+    for (int ep = 0; ep < 2; ++ep)
+        for (int k : {0, 2, 5, 6, 12, 19})
+            a.push_back(ep * SYM_PER_EP + k);
+    for (int i = 0; i < ND; ++i)
+        a.push_back(3 * SYM_PER_EP + i);
+    return a;
+}
+static std::vector<int> fullAlphabet()
+{
+    std::vector<int> a;
     for (int k = 0; k < NSYM; ++k)
+        a.push_back(k);
+    return a;
+}
+
+static void dfsSym(W& w, const Sys& s, std::vector<int>& path, int target, char oracle, const std::vector<int>& alpha)
+{
+    for (int k : alpha)
     {
         path.push_back(k);
         if ((int) path.size() == target)
@@ -671,7 +691,7 @@ static void dfsSym(W& w, const Sys& s, std::vector<int>& path, int target, char 
             W silent;
             silent.single = true;
             symStep(silent, n, k, oracle, "");
-            dfsSym(w, n, path, target, oracle);
+            dfsSym(w, n, path, target, oracle, alpha);
         }
         path.pop_back();
     }
@@ -1149,10 +1169,29 @@ int main(int argc, char** argv)
                     silent.single = true;
                     for (int k : path)
                         symStep(silent, s, k, oracle, "");
-                    dfsSym(w, s, path, d, oracle);
+                    dfsSym(w, s, path, d, oracle, fullAlphabet());
                 });
                 if (run.out_of_time())
                     break;
+            }
+            {
+                const std::vector<int> sharp = sharpAlphabet();
+                const int ns = (int) sharp.size();
+                const int deep = thorough ? 6 : 5;
+                for (int d = treeDepth + 1; d <= deep; ++d)
+                {
+                    run.round(fmt("unmerged tree over the sharp %d-symbol sub-alphabet, all histories of depth %d", ns, d), (uint64_t) ns * ns, [&, d, ns](W& w, uint64_t o) {
+                        Sys s;
+                        std::vector<int> path = {sharp[o / ns], sharp[o % ns]};
+                        W silent;
+                        silent.single = true;
+                        for (int k : path)
+                            symStep(silent, s, k, oracle, "");
+                        dfsSym(w, s, path, d, oracle, sharp);
+                    });
+                    if (run.out_of_time())
+                        break;
+                }
             }
             runBfs(run, thorough ? 11 : 9, oracle);
         }
